@@ -12,10 +12,14 @@
        the response is that session's, field by field), and a server session that accepts a client run's
        finalization has the transcript and server MAC that run verified - or an HMAC / hash collision is
        exhibited.
-   NOT YET PROVED: the bookkeeping induction that lifts (a)-(e) to an invariant over arbitrary histories
-   (DESIGN.md C07), and distinctness of the keys of distinct sessions (a BadFresh event); the
-   history-level statement is decided by the exhaustive routing battery with the matched-conversation
-   oracle and the cross-check of every finish step against the model. *)
+   (f) HISTORIES (end of this file): the world of Model/World.v - one server setup, any number of client and
+       server sessions, a network adversary who chooses every delivered message and the order of all steps, one
+       shared RNG tape - satisfies, after EVERY sequence of operations (induction over the operation list, no
+       bound), that each recorded acceptance is backed by its step's defining equation; hence in every reachable
+       world (e) holds for every completed client session against every server session, and every completed
+       server session accepted the one MAC over its own transcript and released its own key.
+   What remains outside the theorems: that a response whose MAC was NOT produced by any honest session is
+   rejected (unforgeability; C04), covered by the exhaustive routing/tamper batteries. *)
 From Coq Require Import List.
 From OKE Require Import Bytes Suite Generated Voprf Messages Envelope TripleDH Opaque Laws Layers Transcript Accept TapeLayout Bad Matching.
 
@@ -138,3 +142,42 @@ Theorem C07_equal_session_keys_equal_nonces :
     sk = sk' -> (req = req' /\ n = n' /\ e = e') \/ Bad (hash CS).
 Proof. exact @equal_session_keys_equal_nonces. Qed.
 Print Assumptions C07_equal_session_keys_equal_nonces.
+
+
+(* ---- histories: every reachable world *)
+From OKE Require Import World WorldInv.
+Theorem C07_invariant_in_every_reachable_world :
+  forall E Sc Pk Sk (CS : Suite E Sc Pk Sk) setup tape (ops : list (op (E := E) (Pk := Pk))),
+    Inv CS (run CS (@init E Sc Pk Sk setup tape) ops).
+Proof. exact @reachable_inv. Qed.
+Print Assumptions C07_invariant_in_every_reachable_world.
+
+Theorem C07_matched_conversations_in_every_reachable_world :
+  forall E Sc Pk Sk (CS : Suite E Sc Pk Sk), HashLaws (hash CS) -> GroupLaws CS ->
+  forall setup tape ops d s f,
+    let w := run CS (@init E Sc Pk Sk setup tape) ops in
+    In d (w_cdone w) -> In s (w_srv w) -> sv_file s = Some f ->
+    k2_mac (cr_ke2 (cd_resp d)) = k2_mac (cr_ke2 (sv_resp s)) ->
+    forall c, nth_error (w_cli w) (cd_client d) = Some c ->
+    length (client_request_bytes CS (cs_state c)) = length (server_request_bytes CS (sv_rq s)) ->
+    length (client_l2 CS (cd_resp d)) = length (client_l2 CS (sv_resp s)) ->
+    length (k2_nonce (cr_ke2 (cd_resp d))) = length (k2_nonce (cr_ke2 (sv_resp s))) ->
+    (client_request_bytes CS (cs_state c) = server_request_bytes CS (sv_rq s) /\
+     client_l2 CS (cd_resp d) = client_l2 CS (sv_resp s) /\
+     k2_nonce (cr_ke2 (cd_resp d)) = k2_nonce (cr_ke2 (sv_resp s)) /\
+     k_ser_pk (ke CS) (k2_server_e_pk (cr_ke2 (cd_resp d))) = k_ser_pk (ke CS) (k2_server_e_pk (cr_ke2 (sv_resp s))) /\
+     match cd_ctx d with Some x => x | None => nil end = match sv_ctx s with Some x => x | None => nil end /\
+     cd_key d = sl_session_key (sv_state s))
+    \/ Bad (hash CS).
+Proof. exact @matched_conversations. Qed.
+Print Assumptions C07_matched_conversations_in_every_reachable_world.
+
+Theorem C07_server_completions_in_every_reachable_world :
+  forall E Sc Pk Sk (CS : Suite E Sc Pk Sk) setup tape ops d,
+    let w := run CS (@init E Sc Pk Sk setup tape) ops in
+    In d (w_sdone w) ->
+    exists s, nth_error (w_srv w) (sd_server d) = Some s /\
+      cf_mac (sd_fin d) = h_hmac (hash CS) (sl_km3 (sv_state s)) (sl_hashed_transcript (sv_state s)) /\
+      sd_key d = sl_session_key (sv_state s).
+Proof. exact @server_completions. Qed.
+Print Assumptions C07_server_completions_in_every_reachable_world.
